@@ -101,7 +101,7 @@ def plugins_of(args: List[str]) -> List[str]:
     return out
 
 
-def run_build_command(args: List[str], out_dir: str, repo: str, hashseed: str = "0") -> Tuple[int, str]:
+def run_build_command(args: List[str], out_dir: str, repo: str, hashseed: str = "0", optimise: bool = False) -> Tuple[int, str]:
     """Run one build-path invocation with its output redirected to out_dir (the only change made to the command)."""
     clean = []
     skip = False
@@ -115,7 +115,13 @@ def run_build_command(args: List[str], out_dir: str, repo: str, hashseed: str = 
         clean.append(a)
     td = os.path.join(out_dir, "__tests__")
     os.makedirs(td, exist_ok=True)
+    pls = plugins_of(clean)
+    if len(pls) == 1 and os.path.isdir(os.path.join(repo, "tests", pls[0])) and not os.listdir(td):
+        # the build's default --test-dir is <repo>/tests/<plugin>: reproduce it with a scratch copy (the rust plugin rewrites tests/rust/src/main.rs)
+        shutil.copytree(os.path.join(repo, "tests", pls[0]), td, dirs_exist_ok=True, ignore=shutil.ignore_patterns("target", "__pycache__", "*.pyc"))
     env = dict(os.environ, PYTHONPATH=repo, PYTHONDONTWRITEBYTECODE="1", PYTHONHASHSEED=hashseed)
+    if optimise:
+        env["PYTHONOPTIMIZE"] = "1"
     try:
         p = subprocess.run([gen.PY, "-m", "generator"] + clean + ["--output-dir", out_dir, "--test-dir", td], cwd=repo, env=env, capture_output=True, text=True, timeout=900)
         return p.returncode, (p.stdout + p.stderr)[-3000:]
@@ -159,9 +165,10 @@ def main(argv: List[str]) -> int:
         if not ({"python", "rust"} & set(pl)):
             continue
         ref_files = {t: find_file(os.path.join(tmp, f"cmd{ci}"), t) for t in ("lsprotocol/types.py", "lsprotocol/src/lib.rs")}
-        for sd in ("1", "2", "3"):
+        for sd in ("1", "2", "3", "O"):
             od = os.path.join(tmp, f"cmd{ci}-seed{sd}")
-            rc_, log_ = run_build_command(c, od, REPO, hashseed=sd)
+            # "O": the same command with PYTHONOPTIMIZE=1 (assert statements compiled away) under hash seed 0
+            rc_, log_ = run_build_command(c, od, REPO, hashseed="0" if sd == "O" else sd, optimise=sd == "O")
             seed_runs += 1
             for tail, ref in ref_files.items():
                 other = find_file(od, tail)
@@ -170,6 +177,9 @@ def main(argv: List[str]) -> int:
 
                     a_, b_ = open(ref, encoding="utf-8").read().splitlines(), open(other, encoding="utf-8").read().splitlines()
                     first = next((l for l in difflib.unified_diff(a_, b_, "PYTHONHASHSEED=0", f"PYTHONHASHSEED={sd}", n=0, lineterm="") if l[:1] in "+-" and l[:3] not in ("+++", "---")), "")
+                    if sd == "O":
+                        run.violation(f"regen:{tail.split('/')[-1]}:python-O", f"`python -O -m generator {' '.join(c)}` writes a different {tail} than without -O (first difference: {first[:160]})", {"command": c, "first_difference": first, "replay": f"PYTHONOPTIMIZE=1 python -m generator {' '.join(c)} --output-dir <scratch>; cmp with the normal output"}, True)
+                        continue
                     run.violation(f"regen:{tail.split('/')[-1]}:hash-seed", f"`python -m generator {' '.join(c)}` writes a different {tail} under PYTHONHASHSEED={sd} than under 0 (first difference: {first[:160]}): the committed file cannot be 'what the generator emits'", {"command": c, "seeds": ["0", sd], "first_difference": first, "replay": f"PYTHONHASHSEED={sd} python -m generator {' '.join(c)} --output-dir <scratch>; cmp with the PYTHONHASHSEED=0 output"}, True)
             shutil.rmtree(od, ignore_errors=True)
     samples: List[Any] = []
